@@ -8,6 +8,7 @@ Transformer rules
 Nothing else in the source is touched.
 """
 import ast
+import re
 import hashlib
 import importlib
 import importlib.abc
@@ -58,11 +59,12 @@ class LitT(ast.NodeTransformer):
         return node
 
     def visit_Assign(self, node):
-        """`dn = 2000`, `blksize = 10000`: internal chunk sizes become `_BLK(2000)`, which a harness may scale down *at call time*
-        (loader.BLOCK_OVERRIDE) so that the chunk-boundary logic is exercised at symbolic sizes of 3-5 points; the default is the
-        literal value"""
+        """`dn = 2000`, `blksize = 10000`, `_diag_blksize = 1024` (function, module or class level): internal chunk sizes become
+        `_BLK(2000)`, a lazily resolved integer which a harness may scale down *at use time* (loader.BLOCK_OVERRIDE for one
+        literal, loader.BLOCK_OVERRIDE_ALL for every one) so that the chunk-boundary logic is exercised at symbolic sizes of 3-5
+        points; the default is the literal value"""
         self.generic_visit(node)
-        if len(node.targets) == 1 and isinstance(node.targets[0], ast.Name) and node.targets[0].id in ("dn", "blksize", "BLKSIZE"):
+        if len(node.targets) == 1 and _is_block_name(node.targets[0]):
             class _Big(ast.NodeTransformer):
                 def visit_Constant(self, c):
                     if isinstance(c.value, int) and not isinstance(c.value, bool) and c.value >= 100:
@@ -93,10 +95,91 @@ class LitT(ast.NodeTransformer):
 
 
 BLOCK_OVERRIDE = {}
+BLOCK_OVERRIDE_ALL = [None]     # [k]: every chunk-size literal resolves to k (unless BLOCK_OVERRIDE names it)
+BLOCK_SEEN = set()              # literals resolved while an override was active
+_BLOCK_NAME = re.compile(r"(?i)(^dn$|blk|block|chunk|batch)")
+
+
+def _is_block_name(t):
+    if isinstance(t, ast.Name):
+        return bool(_BLOCK_NAME.search(t.id))
+    if isinstance(t, ast.Attribute):
+        return bool(_BLOCK_NAME.search(t.attr))
+    return False
+
+
+def block_literals(path):
+    """the chunk-size literals the loader would route through _BLK in this source file (static scan; used by concrete replays to
+    choose a sample count above the largest one)"""
+    out = set()
+    try:
+        tree = ast.parse(open(path).read())
+    except (OSError, SyntaxError):
+        return out
+    for node in ast.walk(tree):
+        if isinstance(node, ast.Assign) and len(node.targets) == 1 and _is_block_name(node.targets[0]):
+            for c in ast.walk(node.value):
+                if isinstance(c, ast.Constant) and isinstance(c.value, int) and not isinstance(c.value, bool) and c.value >= 100:
+                    out.add(c.value)
+    return out
+
+
+def _resolve(v):
+    if v in BLOCK_OVERRIDE:
+        BLOCK_SEEN.add(v)
+        return BLOCK_OVERRIDE[v]
+    if BLOCK_OVERRIDE_ALL[0] is not None:
+        BLOCK_SEEN.add(v)
+        return BLOCK_OVERRIDE_ALL[0]
+    return v
+
+
+class _LazyBlk(object):
+    """an integer literal whose value is looked up when it is *used* (so that class-level and module-level chunk sizes, evaluated
+    at import time, can still be scaled by a harness)"""
+    __slots__ = ("v",)
+
+    def __init__(self, v):
+        self.v = v
+
+    def __index__(self):
+        return _resolve(self.v)
+
+    __int__ = __index__
+
+    def __float__(self):
+        return float(_resolve(self.v))
+
+    def __bool__(self):
+        return bool(_resolve(self.v))
+
+    def __hash__(self):
+        return hash(_resolve(self.v))
+
+    def __repr__(self):
+        return repr(_resolve(self.v))
+
+
+def _mk(op, swap=False):
+    import operator
+    f = getattr(operator, op)
+
+    def m(self, other):
+        a, b = _resolve(self.v), (other.__index__() if isinstance(other, _LazyBlk) else other)
+        return f(b, a) if swap else f(a, b)
+    return m
+
+
+for _op in ("add", "sub", "mul", "floordiv", "truediv", "mod", "pow"):
+    setattr(_LazyBlk, "__%s__" % _op, _mk(_op))
+    setattr(_LazyBlk, "__r%s__" % _op, _mk(_op, True))
+for _op in ("lt", "le", "gt", "ge", "eq", "ne"):
+    setattr(_LazyBlk, "__%s__" % _op, _mk(_op))
+_LazyBlk.__neg__ = lambda self: -_resolve(self.v)
 
 
 def _BLK(v):
-    return BLOCK_OVERRIDE.get(v, v)
+    return _LazyBlk(v)
 
 
 def _DTEQ(arr, dt):
